@@ -268,6 +268,7 @@ var heapFill [][]byte
 
 func refillHeap() {
 	heapFill = heapFill[:0]
+	heapFillPtr = heapFillPtr[:0]
 	for _, sz := range []int{16, 24, 32, 48, 64, 80, 96, 128} {
 		for i := 0; i < 4000; i++ {
 			b := make([]byte, sz)
@@ -276,12 +277,33 @@ func refillHeap() {
 			}
 			heapFill = append(heapFill, b)
 		}
+		// objects WITH pointers live in other spans than pointer-free ones: records of functions, module
+		// engines and instances are of this kind.  Every word points at one poisoned sentinel.
+	}
+	for _, sz := range []int{16, 24, 32, 48, 64, 80, 96, 112, 128, 144, 160, 176, 192, 208, 224, 240, 256, 288, 320, 352, 384, 416, 448, 480, 512} {
+		for i := 0; i < 2000; i++ {
+			p := make([]*[128]byte, sz/8)
+			for j := range p {
+				p[j] = &heapSentinel
+			}
+			heapFillPtr = append(heapFillPtr, p)
+		}
 	}
 }
 
+var (
+	heapFillPtr  [][]*[128]byte
+	heapSentinel = func() (s [128]byte) {
+		for i := range s {
+			s[i] = 0xAB
+		}
+		return
+	}()
+)
+
 func drainFinalizers(cycles int) {
 	defer refillHeap()
-	heapFill = nil
+	heapFill, heapFillPtr = nil, nil
 	for i := 0; i < cycles; i++ {
 		done := make(chan struct{})
 		s := new([64]byte)
@@ -533,6 +555,11 @@ func (r *runner) compareCall(what string, i int, fn string, args ...uint64) {
 	if got != want && !strings.HasPrefix(got, "error: ") {
 		r.res.Fail("behaviour-changed", "%s returned %s; the twin runtime in which nothing was closed or collected returned %s", what, got, want)
 	}
+	// the called instance is open and everything it uses is reachable from it: closing or collecting
+	// OTHER things gives its call no reason to fail where the twin's succeeds
+	if strings.HasPrefix(got, "error: ") && !strings.HasPrefix(want, "error: ") {
+		r.res.Fail("behaviour-changed", "%s failed with %s; the twin runtime in which nothing was closed or collected returned %s", what, got, want)
+	}
 	if strings.Contains(got, "runtime error") || strings.Contains(got, "BUG") {
 		r.res.Fail("internal-failure", "%s failed with an internal error rather than an ordinary one: %s", what, got)
 	}
@@ -554,6 +581,7 @@ func (r *runner) step(shared bool) {
 		// forced probe: an importer whose definer was just dropped and collected is called
 		if j := k - 200; j < len(r.real.insts) && !r.real.insts[j].closed && j != r.real.pausedInst {
 			x := uint64(t.Choose(100))
+			r.res.Stat("probe.importer_called_after_its_definer_was_dropped_and_collected", 1)
 			switch in := r.real.insts[j]; in.kind {
 			case 'G':
 				r.compareCall(fmt.Sprintf("call #%d G.viaglob(%d) [its definer #%d was dropped and collected]", j, x, in.definer), j, "viaglob", x)
